@@ -201,7 +201,15 @@ def run(ctx, extra_cases=()):
     # ---- implementation runs (current $VERIF_REPO tree) ----
     rc, c_lines, logs, tail = c08lib.run_c(vlib, cnum, cases, timeout=900)
     if rc != 0:
-        raise vlib.CheckError("C driver exited with %d: %s" % (rc, tail[-800:]))
+        # the plain -O2 build crashed or hung: the first case without output is a failing input
+        k = next((i for i, l in enumerate(c_lines) if not l), len(cases) - 1)
+        ctx.tie_broken("the C driver (-O2 build) exited with status %d at case %d (%s)" % (rc, k, cases[k].tag))
+        ctx.report("crash/n=%d" % cases[k].n,
+                   "the C code crashed or hung (exit status %d) on case %d (%s, n=%d): %s"
+                   % (rc, k, cases[k].tag, cases[k].n, tail[-400:]),
+                   {"case": cases[k].to_json(), "case_line": cases[k].line(), "exit_status": rc,
+                    "how": "echo '<case_line>' | build/C08/drv_num"}, found_input=True)
+        return
     rca, a_lines, _, atail = c08lib.run_c(vlib, casan, cases, timeout=1500)
     san_case = None
     if rca != 0:
@@ -225,6 +233,7 @@ def run(ctx, extra_cases=()):
     m_lines = c08lib.run_model(ctx, vlib, cases, logs, timeout=1500)
     ctx.log("model evaluated on %d cases in %.1fs" % (len(cases), time.time() - t1))
     diffs = [i for i in range(len(cases)) if m_lines[i] != c_lines[i]]
+    diffset = set(diffs)
     nlines = sum(len(l) for l in c_lines)
     if diffs:
         k = diffs[0]
@@ -237,7 +246,7 @@ def run(ctx, extra_cases=()):
     t2 = time.time()
     sel = list(range(len(cases)))
     if not ctx.quick:       # exact rational arithmetic on the big orders is slow: all small ones, a sample of the big ones
-        sel = [i for i in sel if cases[i].n <= 12 or i in diffs or i % 4 == 0]
+        sel = [i for i in sel if cases[i].n <= 12 or i in diffset or i % 4 == 0]
     res = run_oracle([cases[i] for i in sel], [c_lines[i] for i in sel])
     ratios, st = {}, {}
     failing = []
@@ -259,12 +268,11 @@ def run(ctx, extra_cases=()):
         rc3, f_lines, _, _ = c08lib.run_c(vlib, cnum, fresh, timeout=600)
         fres = run_oracle(fresh, f_lines)
         extra_eval = len(fresh)
-        base = len(cases)
         for j, (f, s) in enumerate(fres):
             if f:
                 cases.append(fresh[j])
                 c_lines.append(f_lines[j])
-                failing.append((base + len(cases) - base - 1, f))
+                failing.append((len(cases) - 1, f))
         ctx.log("search oracle on %d fresh cases: %d failing" % (len(fresh), len(failing)))
 
     # report (shrunk), one per failure kind
